@@ -15,6 +15,7 @@
  *     releases them with a barrier; each thread executes its script, yielding
  *     / sleeping / spinning between operations as its own PRNG (from <seed>)
  *     says; after joining, the main thread calls ovni_proc_fini().
+ *     env RT_TMPDIR=1: OVNI_TMPDIR=<base>/s<k>.tmp (the relocation at ovni_thread_free runs concurrently)
  *     stdout per case: "returned" | "die t<i>@<op>" | "tsan" | "crash:<status>"
  *
  *   rt_mt race <init|fini> <M> <iters> <base>
@@ -232,7 +233,15 @@ static int run_mt(const char *base)
 			char dir[4200];
 			snprintf(dir, sizeof(dir), "%s/s%ld", base, k);
 			setenv("OVNI_TRACEDIR", dir, 1);
-			unsetenv("OVNI_TMPDIR");
+			if (getenv("RT_TMPDIR")) {
+				/* relocation mode: streams are written under <base>/s<k>.tmp and moved
+				 * to the final directory by ovni_thread_free (concurrently here) */
+				char tmp[4300];
+				snprintf(tmp, sizeof(tmp), "%s/s%ld.tmp", base, k);
+				setenv("OVNI_TMPDIR", tmp, 1);
+			} else {
+				unsetenv("OVNI_TMPDIR");
+			}
 			/* split on '|' */
 			char *parts[MAXT + 1];
 			int np = 0;
